@@ -239,9 +239,11 @@ pub fn exec_acl(w: &mut World, i: usize, op: &Op) -> (bool, bool, Option<String>
 // generator
 
 const TENANTS: &[&str] = &["tenant-a", "tenant-b"];
-const ROLES: &[&str] = &["admin", "analyst", "viewer"];
-const GROUPS: &[&str] = &["eng", "ops"];
-const USERS: &[&str] = &["user-1", "user-2", "user-3"];
+// The three namespaces overlap on purpose ("admin" is a role, a group and a subject id; "eng" and
+// "ops" likewise): a role grant must not be satisfied by a same-named group or subject.
+const ROLES: &[&str] = &["admin", "analyst", "viewer", "eng"];
+const GROUPS: &[&str] = &["eng", "ops", "admin"];
+const USERS: &[&str] = &["user-1", "user-2", "admin", "ops"];
 
 fn dress(r: &mut Rng, s: &str) -> String {
     // the encodings the policy documents as equivalent: case, padding, one level of JSON quoting
@@ -374,6 +376,19 @@ pub fn gen_acl(seed: u64, tier: crate::checks::Tier) -> Scenario {
             if entry != 0 {
                 // these entry points take plain words
                 spec.query = spec.query.replace(['(', ')'], "").replace(" OR ", " ");
+            }
+            if entry == 3 && r.chance(1, 3) {
+                // questions that ask() treats as analytical take a different retrieval route
+                // (timeline documents with full text instead of ranked search hits)
+                let w = spec.query.split_whitespace().next().unwrap_or("xovrilk").to_string();
+                let w2 = r.pick(crate::gen::PLANT).to_string();
+                spec.query = match r.below(5) {
+                    0 => format!("What is the history of {w}?"),
+                    1 => format!("{w} versus {w2}"),
+                    2 => format!("How has {w} changed over time?"),
+                    3 => format!("compare {w} and {w2}"),
+                    _ => format!("any changes to {w} throughout"),
+                };
             }
             v.push(Op::AclSearch { spec, ctx: gen_ctx(r), enforce: r.chance(2, 3), entry, emb });
         }
